@@ -34,7 +34,11 @@ TAB = {'---': '—', '--': '–', '``': '“', "''": '”', '~': '\xa0',
        '\\,': ' ', '\\%': '%', '\\&': '&', '\\$': '$', '\\#': '#', '\\_': '_',
        '\\{': '{', '\\}': '}'}
 ACCENTS = [("\\'e", 'é'), ('\\`a', 'à'), ('\\^o', 'ô'), ('\\"u', 'ü'), ('\\~n', 'ñ'), ('\\c{c}', 'ç'),
-           ("\\'{E}", 'É'), ('\\v s', 'š'), ('\\H{o}', 'ő'), ('\\.z', 'ż')]
+           ("\\'{E}", 'É'), ('\\v s', 'š'), ('\\H{o}', 'ő'), ('\\.z', 'ż'),
+           # accents on the special letters: \i, \j are no macros of the filter (the accent stands alone),
+           # \ae, \o, \l, \ss are letters outside ASCII (composed character, or letter + combining accent)
+           ("\\'{\\i}", '´'), ('\\"{\\i}', '¨'), ('\\^{\\j}', '^'), ("\\'{\\ae}", 'ǽ'), ("\\'{\\o}", 'ǿ'),
+           ('\\v{\\l}', 'ł\u030c'), ('\\c{\\ss}', 'ß\u0327'), ('\\~{\\AE}', 'Æ\u0303')]
 SHORT_DE = [('"a', 'ä'), ('"o', 'ö'), ('"U', 'Ü'), ('"s', 'ß'), ('"`', '„'), ('"\'', '“'), ('"=', '-')]
 
 ALL_KINDS = ['word', 'word', 'atom', 'unk', 'unkarg', 'unkarg2', 'label', 'index', 'ref', 'cite', 'citeopt',
@@ -300,7 +304,8 @@ class Gen:
             self.word()
             return
         self.w(src)
-        self.cur.append((out, st + 1, st + 1, 'w:accent'))
+        for ch in out:
+            self.cur.append((ch, st + 1, st + 1, 'w:accent'))
         if src[-1].isalpha() and src[-1] != '}' and len(src) == 3:
             # \'e followed by a word is fine; '\v s' ends in a letter: following letters are separate tokens
             pass
